@@ -331,7 +331,7 @@ Qed.
 Lemma bucket_rel_inv m ns : member_bucket m = BRel ns -> exists a, m = VTup a /\ map fst a = ns.
 Proof.
   destruct m as [n|a|s]; try discriminate. intros H. exists a. split; [reflexivity|].
-  destruct a as [|[n1 k] [|[n2 x] [|q a]]]; cbn in H; try (injection H as <-; reflexivity).
+  destruct a as [|[n1 k] [|[n2 x] [|q a]]]; cbn in H; try discriminate; try (injection H as <-; reflexivity).
   destruct (name_eqb n1 n_at); [|injection H as <-; reflexivity].
   destruct (name_eqb n2 n_char); [discriminate|]. destruct (name_eqb n2 n_byte); [discriminate|].
   destruct (name_eqb n2 n_item); [discriminate|]. destruct (name_eqb n2 n_value); [discriminate|].
